@@ -737,6 +737,11 @@ def d_cut(a, b):
         return NJ
     if any(p < 0 or p > len(el) for p in pos) or any(x > y for x, y in zip(pos, pos[1:])):
         return NJ
+    if not el:
+        # the reference text does not say how many empty segments an empty list cut at 0 has; the test suite of the
+        # reference implementation (shipped in tests/kgtests/language/test_suite.kg) does: []:_[], 0:_[] and [0]:_[] are
+        # [[]], [0 0]:_[] is [[] []], 0:_"" is [""] - one segment per position, and one for no position
+        return val(L(*[mk_like(b, []) for _ in range(max(1, len(pos)))]))
     out, prev = [], 0
     for p in pos + [len(el)]:
         out.append(mk_like(b, el[prev:p]))
